@@ -55,6 +55,8 @@ Builtin(sig, args) ==
       [] sig.sem = "value"  -> VRes(IF Len(args[1].nl) = 1 THEN args[1].nl[1].v ELSE Nothing)
       [] sig.sem \in {"match", "search"} -> RegexCall(sig.sem, args)
       [] sig.sem = "probe"  -> ProbeResult(sig, args)
+      [] sig.sem = "ct"     -> LRes(TRUE)          \* constant bodies used by System.tla
+      [] sig.sem = "cf"     -> LRes(FALSE)
 
 RECURSIVE ApplySel(_, _, _, _), ApplySeg(_, _, _, _), EvalSegs(_, _, _, _), EvalQ(_, _, _, _),
           Test(_, _, _, _), ValueOf(_, _, _, _), Call(_, _, _, _), ArgFor(_, _, _, _, _)
